@@ -20,6 +20,7 @@ RULE = ('Valid domain (85%): every scene class (layered, split_candidate, merge_
         'column, empty, not a DataFrame) and out-of-order stage calls. Oracle: AmpycloudError and nothing else. '
         'Non-trivial = >= 2 non-default parameter leaves, or a class other than layered, or a refusal. Distinct by '
         '(class/kind, n_slices/n_groups/n_layers/ncomp pattern, set of non-default leaves, anomalies).')
+ENGINE = 'hypothesis (16 shards) + atheris/libFuzzer driving the same strategy through fuzz_one_input with ampycloud instrumented for coverage'
 ASSUMPTIONS = ['"documented meaning" of a parameter leaf = the domains listed in DESIGN.md section 3',
                'exceptions raised for bad *parameter values* (unknown mode names etc.) are not part of the enforced '
                'refusal domain: the statement restricts the AmpycloudError-only clause to data and call-order problems']
@@ -47,6 +48,22 @@ def strategy_(draw):
 
 def strategy(tier):
     return strategy_()
+
+
+ATHERIS = {'quick': (2, 60), 'thorough': (16, 1500)}   # (instances, libFuzzer runs per instance)
+
+
+def jobs(tier, seed):
+    from vlib import runner
+    n, runs = ATHERIS[tier]
+    return [{'name': f'atheris-{i}', 'runs': runs, 'seed': runner.derive_seed(seed, ID, 'atheris', i) % (2 ** 31)}
+            for i in range(n)]
+
+
+def run_job(job, ctx):
+    import sys
+    from vlib import runner
+    runner.atheris_explore(sys.modules[__name__], ctx, ID, job['runs'], job['seed'], job['tier'])
 
 
 def leaves(prms, pre=''):
